@@ -50,7 +50,39 @@ def check(rep, model, tier):
             rep.compare('DEF', f'{centre}:{col}', site, cols[col], sd[col], ctx.unmodelled)
             n_inst += 1
     standalone(rep, model)
+    wiring(rep, model)
     rep.floor('shape definitions compared', n_inst, 26)
+
+
+def wiring(rep, model):
+    """the rows the user receives are the ones DEF is about: the pipeline asks for the documented band-amplitude filter, and the table utilities leave a returned table alone"""
+    from . import common
+    rep.rule('BAND-WIRING', 'compute_features computes the shape table with the documented band-amplitude filter: the n_cycles of compute_shape_features is left at its documented '
+                            'default (3) whatever segmentation / burst options are given, and sig / fs / f_range / center_extrema / find_extrema_kwargs are passed through unchanged')
+    rep.rule('TABLE-INTACT', 'limit_df / drop_samples_df / get_extrema_df / epoch_df (applied to a returned table by the plots and by the user) write through none of their arguments: '
+                             'the sample_ columns of a returned table keep pointing at the cyclepoints its features were computed from')
+    f = model.find('compute_features')
+    site = f'{f.path}:{f.node.lineno} compute_features'
+    fek = ('dict', (('boundary', ('param', 'boundary')), ('filter_kwargs', ('dict', (('n_cycles', ('param', 'fk_n_cycles')),)))))
+    for label, fe in (('None', NONE), ('boundary+filter n_cycles', fek)):
+        for method in ('cycles', 'amp'):
+            res, ctx = E.run(model, f.qual, {'find_extrema_kwargs': fe, 'burst_method': C(method), 'center_extrema': ('param', 'center_extrema'),
+                                             'threshold_kwargs': ('dict', ()), 'burst_kwargs': NONE}, no_inline=E.HEAVY)
+            evs = [e for e in E.calls_to(ctx, 'compute_shape_features') if e['kind'] == 'pkgcall']
+            inst = f'find_extrema_kwargs={label}:{method}'
+            if len(evs) != 1:
+                rep.violation('BAND-WIRING', inst, site, expected='one compute_shape_features call', found=f'{len(evs)} calls')
+                continue
+            b = evs[0]['bound']
+            want = {'sig': ('param', 'sig'), 'fs': ('param', 'fs'), 'f_range': ('param', 'f_range'), 'center_extrema': ('param', 'center_extrema'), 'find_extrema_kwargs': fe}
+            bad = {k: T.brief(b.get(k), 60) if b.get(k) is not None else 'unbound' for k in want if b.get(k, NONE if k == 'find_extrema_kwargs' else None) != want[k]}
+            if b.get('n_cycles', C(3)) != C(3):
+                bad['n_cycles'] = T.brief(b['n_cycles'], 80)
+            if bad or evs[0]['problems']:
+                rep.violation('BAND-WIRING', inst, evs[0]['where'] or site, expected='(sig, fs, f_range, center_extrema, find_extrema_kwargs) as given; n_cycles left at 3', found=f'{bad} {evs[0]["problems"]}')
+            else:
+                rep.ok('BAND-WIRING', inst, evs[0]['where'] or site, found='arguments passed through; band-amplitude filter at its documented default')
+    common.args_intact(rep, model, ['limit_df', 'drop_samples_df', 'get_extrema_df', 'epoch_df'], rule='TABLE-INTACT', why='a returned table must keep describing the original signal')
 
 
 def standalone(rep, model):
